@@ -214,6 +214,8 @@ func (f *FailoverOf[V]) Get(
 
 	// Running cache build synchronously.
 	if syncUpdate {
+		// Concurrent callers are waiting for the result, they receive an error if build function does not return.
+		keyLock.err = ErrBuildAborted
 		keyLock.val, keyLock.err = f.doBuild(ctx, key, val, buildFunc)
 		// Return stale value if update fails.
 		if keyLock.err != nil {
